@@ -708,7 +708,7 @@ func c15Stale(c *core.Ctx) {
 		if ua.Rhs != nil {
 			if core.IsNil(ua.U.Info(), ua.Rhs) {
 				fresh = true
-			} else if ue, ok := ast.Unparen(ua.Rhs).(*ast.UnaryExpr); ok && ue.Op == token.AND {
+			} else if ue, ok := ast.Unparen(ua.U.Deep(ua.Rhs)).(*ast.UnaryExpr); ok && ue.Op == token.AND { // also through `mr := &messageReader{c}`
 				_, fresh = ast.Unparen(ue.X).(*ast.CompositeLit)
 			}
 		}
